@@ -116,7 +116,7 @@ class Result:
         self.log = None
 
 
-def build_and_check(h, work, timeout, mem_gb=8, extra_defines=(), tag=''):
+def build_and_check(h, work, timeout, mem_gb=8, extra_defines=(), tag='', build_only=False):
     """Returns Result.  Raises nothing: tool problems become status 'undecided' with a reason."""
     r = Result(h)
     d = os.path.join(work, h.name + tag)
@@ -188,6 +188,9 @@ def build_and_check(h, work, timeout, mem_gb=8, extra_defines=(), tag=''):
             if rc != 0:
                 raise ToolError('goto-instrument failed: ' + (out.strip().splitlines()[-1][:300] if out.strip() else ''))
         r.binary = b
+        if build_only:
+            r.status = 'built'
+            return r
         cmd = ['cbmc', b] + h.flags + BACKEND_FLAGS[h.backend]
         if h.unwind is not None:
             cmd += ['--unwind', str(h.unwind), '--unwinding-assertions']
@@ -268,11 +271,31 @@ def trace(h, r, work, timeout, mem_gb=8, tag=''):
 
 
 def canary(h, work, timeout, mem_gb=8):
-    """Same harness with -DVX_CANARY (assert(0) after the call under contract): it must FAIL."""
-    r = build_and_check(h, work, timeout, mem_gb, extra_defines=['VX_CANARY'], tag='.canary')
-    if r.status == 'undecided':
+    """Vacuity guard: the same harness built with -DVX_CANARY (assert(0) after the call under contract); that assertion —
+    and only it (--property, SAT back end) — is checked and must FAIL: precondition satisfiable, call returns on some path."""
+    import copy
+    hc = copy.copy(h)
+    hc.backend = 'sat'
+    d = os.path.join(work, h.name + '.canary')
+    os.makedirs(d, exist_ok=True)
+    # build only (reuse build_and_check up to the binary by asking for a property that does not exist yet)
+    r = build_and_check(hc, work, timeout, mem_gb, extra_defines=['VX_CANARY'], tag='.canary', build_only=True)
+    if r.status == 'undecided' and not r.binary:
         return False, 'canary undecided: ' + r.reason
-    hit = [o for o in r.failed if 'canary' in o['desc'].lower() or 'canary' in o['id'].lower()]
-    if not hit:
+    rc, out, dt = run(['cbmc', r.binary, '--show-properties'], d, 300, mem_gb)
+    ids = re.findall(r'Property (\S+):\n[^\n]* function %s\n\s*canary: reachable after the call under contract' % re.escape(h.entry), out)
+    if not ids:
+        return False, 'canary assertion not found in the property list'
+    cmd = ['cbmc', r.binary, '--property', ids[0]]
+    if h.unwind is not None:
+        cmd += ['--unwind', str(h.unwind)]
+    if h.object_bits:
+        cmd += ['--object-bits', str(h.object_bits)]
+    rc, out, dt = run(cmd, d, timeout, mem_gb, os.path.join(d, 'log.txt'))
+    if rc == -999:
+        return False, 'canary undecided: cbmc timeout'
+    if re.search(r'\[%s\].*: FAILURE' % re.escape(ids[0]), out):
+        return True, ''
+    if 'VERIFICATION SUCCESSFUL' in out:
         return False, 'canary assertion did not fail: precondition unsatisfiable or call never returns'
-    return True, ''
+    return False, 'canary undecided: ' + (out.strip().splitlines()[-1][:200] if out.strip() else 'no output')
